@@ -9,3 +9,5 @@ for _i in range(1, 20):
     except ModuleNotFoundError as _err:
         if _err.name != f"{__name__}.{_name}":
             raise
+
+from . import generic  # noqa: E402,F401  (rules registered for every property)
